@@ -42,6 +42,8 @@ TrInit ==
                 [ph |-> R.ph, logp |-> R.logp, energy |-> R.e0, gh |-> last.gh])
     \* the trajectory starts from the previous draw
     /\ last.ph # "" => R.ph = last.ph
+    \* the reference energy of the trajectory is the energy of the start point with its fresh momentum
+    /\ R.e0ok
     /\ UNCHANGED last
 
 TrDir ==
